@@ -65,6 +65,7 @@ func init() {
 		Parts: []Part{
 			{Name: "model", Shards: 12, Fn: func(c *Ctx) { cbModelPart(c, "C18") }},
 			{Name: "freetrip", Race: true, Shards: 4, Fn: c18FreeTrip},
+			{Name: "cycleeffects", Race: true, Shards: 4, Fn: c18CycleEffects},
 		},
 	})
 }
@@ -542,66 +543,91 @@ func (l *yieldLogger) Info(string, ...any)  { l.stall() }
 func (l *yieldLogger) Warn(string, ...any)  { l.stall() }
 func (l *yieldLogger) Error(string, ...any) { l.stall() }
 
-func c05Cycle(c *Ctx) {
-	c.Cases("cycle", c.N(16, 400), func(i int, r *rand.Rand) {
-		fb := pick(r, []time.Duration{500 * time.Millisecond, time.Second})
-		rec := pick(r, []time.Duration{500 * time.Millisecond, time.Second})
-		freeze(baseTime.Add(time.Duration(r.Int64N(1e9))))
-		defer unfreeze()
-		lg := &yieldLogger{}
-		lg.seed.Store(r.Uint64())
-		var failing atomic.Bool
-		failing.Store(true)
-		var handled, fell atomic.Int64
-		h := http.HandlerFunc(func(w http.ResponseWriter, req *http.Request) {
-			handled.Add(1)
-			if failing.Load() {
-				w.WriteHeader(502)
-			}
-		})
-		fbh := http.HandlerFunc(func(w http.ResponseWriter, req *http.Request) { fell.Add(1); w.WriteHeader(503) })
-		cb, err := cbreaker.New(h, "NetworkErrorRatio() > 0.5", cbreaker.FallbackDuration(fb), cbreaker.RecoveryDuration(rec), cbreaker.CheckPeriod(0), cbreaker.Fallback(fbh), cbreaker.Logger(lg))
-		if err != nil {
-			panic(err)
+// cbCycleRun drives one breaker from 8 goroutines while a ticker advances the frozen clock and flips the backend
+// between failing and healthy; the breaker's own Logger output gives the totally ordered sequence of state changes.
+func cbCycleRun(c *Ctx, i int, r *rand.Rand) (seq []string, onTripped, onStandby int64, fb, rec time.Duration, total int) {
+	fb = pick(r, []time.Duration{500 * time.Millisecond, time.Second})
+	rec = pick(r, []time.Duration{500 * time.Millisecond, time.Second})
+	freeze(baseTime.Add(time.Duration(r.Int64N(1e9))))
+	defer unfreeze()
+	lg := &yieldLogger{}
+	lg.seed.Store(r.Uint64())
+	var failing atomic.Bool
+	failing.Store(true)
+	h := http.HandlerFunc(func(w http.ResponseWriter, req *http.Request) {
+		if failing.Load() {
+			w.WriteHeader(502)
 		}
-		var stop atomic.Bool
-		var wg sync.WaitGroup
-		total := 1500 + r.IntN(c.N(1500, 4000))
-		var issued atomic.Int64
-		for g := 0; g < 8; g++ {
-			wg.Add(1)
-			go func() {
-				defer wg.Done()
-				for issued.Add(1) <= int64(total) {
-					cb.ServeHTTP(httptest.NewRecorder(), httptest.NewRequest("GET", "http://x.test/", nil))
-				}
-			}()
-		}
-		// ticker: advances the frozen clock and flips the backend between failing and healthy
+	})
+	fbh := http.HandlerFunc(func(w http.ResponseWriter, req *http.Request) { w.WriteHeader(503) })
+	on, off := &countEffect{}, &countEffect{}
+	cb, err := cbreaker.New(h, "NetworkErrorRatio() > 0.5", cbreaker.FallbackDuration(fb), cbreaker.RecoveryDuration(rec), cbreaker.CheckPeriod(pick(r, []time.Duration{0, time.Nanosecond, time.Microsecond})),
+		cbreaker.Fallback(fbh), cbreaker.Logger(lg), cbreaker.OnTripped(on), cbreaker.OnStandby(off))
+	if err != nil {
+		panic(err)
+	}
+	var stop atomic.Bool
+	var wg sync.WaitGroup
+	total = 1500 + r.IntN(c.N(1500, 4000))
+	var issued atomic.Int64
+	for g := 0; g < 8; g++ {
 		wg.Add(1)
 		go func() {
 			defer wg.Done()
-			tr := rand.New(rand.NewPCG(uint64(i), 99))
-			for !stop.Load() {
-				advance(time.Duration(tr.Int64N(int64(fb / 2))))
-				if tr.IntN(40) == 0 {
-					failing.Store(!failing.Load())
-				}
-				if tr.IntN(25) == 0 {
-					advance(11 * time.Second)
-				}
-				time.Sleep(time.Duration(20+tr.IntN(60)) * time.Microsecond)
-				if issued.Load() > int64(total) {
-					return
-				}
+			for issued.Add(1) <= int64(total) {
+				cb.ServeHTTP(httptest.NewRecorder(), httptest.NewRequest("GET", "http://x.test/", nil))
 			}
 		}()
-		wg.Wait()
-		stop.Store(true)
+	}
+	wg.Add(1)
+	go func() {
+		defer wg.Done()
+		tr := rand.New(rand.NewPCG(uint64(i), 99))
+		for !stop.Load() {
+			advance(time.Duration(tr.Int64N(int64(fb / 2))))
+			if tr.IntN(40) == 0 {
+				failing.Store(!failing.Load())
+			}
+			if tr.IntN(25) == 0 {
+				advance(11 * time.Second)
+			}
+			time.Sleep(time.Duration(20+tr.IntN(60)) * time.Microsecond)
+			if issued.Load() > int64(total) {
+				return
+			}
+		}
+	}()
+	wg.Wait()
+	stop.Store(true)
+	lg.mu.Lock()
+	seq = append([]string(nil), lg.states...)
+	lg.mu.Unlock()
+	// side effects run in their own goroutines: bounded wait until the counts stop short of the announced changes
+	wantT, wantS := int64(0), int64(0)
+	prev := "standby"
+	for _, st := range seq {
+		if st != prev {
+			if st == "tripped" {
+				wantT++
+			}
+			if st == "standby" {
+				wantS++
+			}
+		}
+		prev = st
+	}
+	deadline := time.Now().Add(20 * time.Second)
+	for time.Now().Before(deadline) && (on.n.Load() < wantT || off.n.Load() < wantS) {
+		time.Sleep(200 * time.Microsecond)
+	}
+	time.Sleep(2 * time.Millisecond)
+	return seq, on.n.Load(), off.n.Load(), fb, rec, total
+}
+
+func c05Cycle(c *Ctx) {
+	c.Cases("cycle", c.N(16, 400), func(i int, r *rand.Rand) {
+		seq, _, _, fb, rec, total := cbCycleRun(c, i, r)
 		c.Eval()
-		lg.mu.Lock()
-		seq := append([]string(nil), lg.states...)
-		lg.mu.Unlock()
 		c.Count("cycle_requests", int64(total))
 		c.Count("cycle_state_changes_observed", int64(len(seq)))
 		legal := map[string]map[string]bool{"standby": {"tripped": true}, "tripped": {"recovering": true}, "recovering": {"standby": true, "tripped": true}}
@@ -619,4 +645,37 @@ func c05Cycle(c *Ctx) {
 		}
 	})
 	c.Require("cycle_nontrivial", 2)
+}
+
+// c18CycleEffects: same workload; the side effects must have run exactly once per state change into tripped / standby.
+func c18CycleEffects(c *Ctx) {
+	c.Cases("cycleeffects", c.N(16, 400), func(i int, r *rand.Rand) {
+		seq, gotT, gotS, fb, rec, total := cbCycleRun(c, i, r)
+		c.Eval()
+		c.Count("cycle_requests", int64(total))
+		wantT, wantS := int64(0), int64(0)
+		prev := "standby"
+		for _, st := range seq {
+			if st != prev {
+				if st == "tripped" {
+					wantT++
+				}
+				if st == "standby" {
+					wantS++
+				}
+			}
+			prev = st
+		}
+		c.Count("cycle_transitions_into_tripped", wantT)
+		c.Count("cycle_transitions_into_standby", wantS)
+		if gotT != wantT || gotS != wantS {
+			c.Violation("effects", sfmt("fallback %v recovery %v, %d requests from 8 goroutines with the clock advancing: the breaker changed state into tripped %d times and into standby %d times, but on-tripped ran %d times and on-standby %d times", fb, rec, total, wantT, wantS, gotT, gotS), map[string]any{"announced_states_tail": seq[max(0, len(seq)-12):]})
+			return
+		}
+		if wantT >= 2 {
+			c.Nontrivial(sfmt("cycleeffects/%v/%v/%d/%d", fb, rec, len(seq), i))
+			c.Count("cycleeffects_nontrivial", 1)
+		}
+	})
+	c.Require("cycleeffects_nontrivial", 2)
 }
